@@ -300,8 +300,8 @@ def run(ctx):
     ctx.rule("C17.persist", "pin committed and read back by the same key", floor=3)
     ctx.rule("C17.auto", "auto-trust stores the presented key and resumes", floor=4)
     ctx.assume("python-axolotl raises UntrustedIdentityException from its own call of isTrustedIdentity and stores first-seen identities itself")
-    rule_trust(ctx)
-    rule_guard(ctx)
-    rule_refuse(ctx)
-    rule_persist(ctx)
-    rule_auto(ctx)
+    ctx.guarded("C17.trust", rule_trust, ctx)
+    ctx.guarded("C17.guard", rule_guard, ctx)
+    ctx.guarded("C17.refuse", rule_refuse, ctx)
+    ctx.guarded("C17.persist", rule_persist, ctx)
+    ctx.guarded("C17.auto", rule_auto, ctx)
